@@ -148,11 +148,11 @@ PROPS['C19'] = dict(
 )
 
 PROPS['C20'] = dict(
-    units=[('u_pair.rs', 'A', ['asset', 'shim', 'querier'])] + [('u_pair.rs', 'A', None, ('pair', [f])) for f in ('withdraw_liquidity', 'lemma_c20_payable', 'lemma_refund_fits', 'lemma_c04')], min_tagged=6, trusted=PAIR_TRUST,
+    units=[('u_pair.rs', 'A', ['asset', 'shim', 'querier'])] + [('u_pair.rs', 'A', None, ('pair', [f])) for f in ('withdraw_liquidity', 'receive_cw20', 'execute', 'lemma_c20_payable', 'lemma_refund_fits', 'lemma_c04')], min_tagged=6, trusted=PAIR_TRUST,
     assumptions=[T_CHAIN, 'mode A = "does not abort / succeeds": environment services (address (de)canonicalisation, bank / cw20 queries, serialisation) are assumed not to fail -- such failures are outside the statement',
                  'that the three emitted messages are then executable (the pair holds the refunds and the LP tokens just sent to it; bank and cw20 reject only zero or uncovered amounts) is chain semantics; the refunds are proved >= 1 and <= reserve',
                  'reachability of states with positive supply and reserves after arbitrary histories rests on C01 (outside the recorded window the ask reserve stays positive)'],
-    explanation='withdraw_liquidity is verified in the NO-ABORT mode: every panicking primitive (Decimal::from_ratio, Uint128 * Decimal, checked arithmetic) carries its abort condition as a precondition. Under "0 < a <= S and r_i*a/S >= r_i/10^18 + 2 for both assets" the body reaches its end with r is Ok, refunds floor(r_i*floor(a*D/S)/D) >= 1 and <= r_i; the helpers on the path (query_pools, to_normal, query_pool, into_msg) are proved to succeed.',
+    explanation='the whole entry path execute(Receive) -> receive_cw20(WithdrawLiquidity hook from the LP token) -> withdraw_liquidity is verified in the NO-ABORT mode: every panicking primitive (Decimal::from_ratio, Uint128 * Decimal, checked arithmetic) carries its abort condition as a precondition. Under "0 < a <= S and r_i*a/S >= r_i/10^18 + 2 for both assets" the body reaches its end with r is Ok, refunds floor(r_i*floor(a*D/S)/D) >= 1 and <= r_i; the helpers on the path (query_pools, to_normal, query_pool, into_msg) are proved to succeed.',
 )
 
 PROPS['C03'] = dict(
